@@ -172,6 +172,7 @@ def specNote (v : VSt) (goid : Nat) (point : String) (wid : Nat) (n : Nat) : VSt
     else ({ v with sStopped := true }, "?ok")
   | "h.shutdown.hung" => (v, "?viol:shutdown-did-not-return")
   | "h.serve.hung" => (v, "?viol:serve-did-not-return")
+  | "h.serve.early" => (v, "?viol:serve-returned-while-a-callback-was-still-running-shutdown-not-drained")
   | "h.panic" => (v, "?viol:api-call-panicked")
   | "h.connclosed" => if n = 1 then (v, "?ok") else (v, s!"?viol:connection-closed-{n}-times")
   | "sv.starting" =>
